@@ -302,6 +302,10 @@ def r4_channel(ctx: Context) -> None:
             return projects(e.args[0], depth + 1)
         if isinstance(e, ast.Name) and e.id in env:
             return projects(env[e.id], depth + 1)
+        if isinstance(e, ast.Name):
+            # bound more than once (`try: s = obj.samplers  except AttributeError: s = obj`): some binding must project
+            defs = [x.value for x in walk_scope(reader.node) if isinstance(x, ast.Assign) and any(isinstance(t, ast.Name) and t.id == e.id for t in x.targets)]
+            return any(projects(d_, depth + 1) for d_ in defs)
         if isinstance(e, ast.IfExp):
             return projects(e.body, depth + 1) or projects(e.orelse, depth + 1)
         return False
@@ -325,6 +329,13 @@ def r4_channel(ctx: Context) -> None:
     n = normaliser(prog, f)
     inv_ok = any(isinstance(x, ast.DictComp) and len(x.generators) == 1 and isinstance(x.generators[0].target, ast.Tuple) and len(x.generators[0].target.elts) == 2
                  and src(x.key) == src(x.generators[0].target.elts[1]) and src(x.value) == src(x.generators[0].target.elts[0]) and src(x.generators[0].iter).endswith(".items()") for x in ast.walk(f.node))
+    # the same inversion spelled with zip: dict(zip(T.values(), T.keys()))
+    for x in ast.walk(f.node):
+        if isinstance(x, ast.Call) and dotted(x.func) == "dict" and len(x.args) == 1 and isinstance(x.args[0], ast.Call) and dotted(x.args[0].func) == "zip" and len(x.args[0].args) == 2:
+            a_, b_ = x.args[0].args
+            if isinstance(a_, ast.Call) and isinstance(b_, ast.Call) and isinstance(a_.func, ast.Attribute) and isinstance(b_.func, ast.Attribute) \
+                    and a_.func.attr == "values" and b_.func.attr == "keys" and src(a_.func.value) == src(b_.func.value):
+                inv_ok = True
     ctx.check(inv_ok, "R4.inverse", "plot_results._get_samplers_names:inverse", "names are looked up through the inverted table {id: name}", "the id->name inversion changed", f, f.node)
 
 
